@@ -20,6 +20,7 @@ import (
 	"reflect"
 	"sort"
 	"time"
+	"unsafe"
 )
 
 type ptrKey struct {
@@ -358,4 +359,199 @@ func deepPoison(x any) int {
 		}
 	}
 	return n
+}
+
+// ---- completeness self-test of the deep hash ----------------------------------------------------
+
+func reflSettable(v reflect.Value) reflect.Value {
+	if v.CanSet() {
+		return v
+	}
+	if v.CanAddr() {
+		return reflect.NewAt(v.Type(), unsafe.Pointer(v.UnsafeAddr())).Elem()
+	}
+	return reflect.Value{}
+}
+
+// reflMutate changes the value stored in v (which must be settable) to a different one.
+func reflMutate(v reflect.Value) bool {
+	switch v.Kind() {
+	case reflect.Bool:
+		v.SetBool(!v.Bool())
+	case reflect.Int, reflect.Int8, reflect.Int16, reflect.Int32, reflect.Int64:
+		v.SetInt(v.Int() ^ 1)
+	case reflect.Uint, reflect.Uint8, reflect.Uint16, reflect.Uint32, reflect.Uint64, reflect.Uintptr:
+		v.SetUint(v.Uint() ^ 1)
+	case reflect.Float32, reflect.Float64:
+		v.SetFloat(v.Float() + 1)
+	case reflect.String:
+		v.SetString(v.String() + "~")
+	case reflect.Pointer:
+		if v.IsNil() {
+			v.Set(reflect.New(v.Type().Elem()))
+		} else {
+			v.Set(reflect.Zero(v.Type()))
+		}
+	case reflect.Slice:
+		if v.IsNil() {
+			v.Set(reflect.MakeSlice(v.Type(), 1, 1))
+		} else {
+			v.Set(reflect.Zero(v.Type()))
+		}
+	case reflect.Map:
+		if v.IsNil() {
+			v.Set(reflect.MakeMap(v.Type()))
+		} else {
+			v.Set(reflect.Zero(v.Type()))
+		}
+	case reflect.Interface, reflect.Func, reflect.Chan:
+		if v.IsNil() {
+			return false
+		}
+		v.Set(reflect.Zero(v.Type()))
+	case reflect.Struct:
+		if v.Type() == timeType {
+			return false
+		}
+		for i := 0; i < v.NumField(); i++ {
+			if f := reflSettable(v.Field(i)); f.IsValid() && reflMutate(f) {
+				return true
+			}
+		}
+		return false
+	case reflect.Array:
+		if v.Len() == 0 {
+			return false
+		}
+		return reflMutate(v.Index(0))
+	default:
+		return false
+	}
+	return true
+}
+
+// deepHashSelfTest plants, one at a time, a write into every slice reachable from root (element 0,
+// the last element, and the first element of the spare capacity) and into every map (one value
+// replaced), checks that deepHash(root) changes, and undoes the write.  It returns the number of
+// planted writes, the number of sites it could not write to, and the paths where the hash did
+// NOT change.
+func deepHashSelfTest(root any) (sites, skipped int, missed []string) {
+	h0 := deepHash(root)
+	seen := map[ptrKey]bool{}
+	try := func(el reflect.Value, path string) {
+		el = reflSettable(el)
+		if !el.IsValid() {
+			skipped++
+			return
+		}
+		saved := reflect.New(el.Type()).Elem()
+		saved.Set(el)
+		if !reflMutate(el) {
+			skipped++
+			return
+		}
+		sites++
+		if deepHash(root) == h0 {
+			missed = append(missed, path)
+		}
+		el.Set(saved)
+	}
+	var visit func(v reflect.Value, path string)
+	visit = func(v reflect.Value, path string) {
+		if !v.IsValid() {
+			return
+		}
+		switch v.Kind() {
+		case reflect.Pointer:
+			if v.IsNil() {
+				return
+			}
+			k := ptrKey{v.Pointer(), v.Type(), 0}
+			if seen[k] {
+				return
+			}
+			seen[k] = true
+			visit(v.Elem(), path)
+		case reflect.Interface:
+			if !v.IsNil() {
+				visit(v.Elem(), path+"("+v.Elem().Type().String()+")")
+			}
+		case reflect.Struct:
+			if v.Type() == timeType {
+				return
+			}
+			for i := 0; i < v.NumField(); i++ {
+				visit(v.Field(i), path+"."+v.Type().Field(i).Name)
+			}
+		case reflect.Array:
+			for i := 0; i < v.Len(); i++ {
+				visit(v.Index(i), fmt.Sprintf("%s[%d]", path, i))
+			}
+		case reflect.Map:
+			if v.IsNil() || v.Len() == 0 {
+				return
+			}
+			k := ptrKey{v.Pointer(), v.Type(), 0}
+			if seen[k] {
+				return
+			}
+			seen[k] = true
+			keys := v.MapKeys()
+			key := keys[0]
+			// plant: replace the value stored under one key
+			func() {
+				defer func() {
+					if recover() != nil {
+						skipped++ // map reached through an unexported field: reflect refuses to write
+					}
+				}()
+				old := v.MapIndex(key)
+				nv := reflect.New(v.Type().Elem()).Elem()
+				nv.Set(old)
+				if !reflMutate(nv) {
+					skipped++
+					return
+				}
+				v.SetMapIndex(key, nv)
+				sites++
+				if deepHash(root) == h0 {
+					missed = append(missed, path+"[map value]")
+				}
+				v.SetMapIndex(key, old)
+			}()
+			for _, kk := range keys {
+				visit(v.MapIndex(kk), path+"[k]")
+			}
+		case reflect.Slice:
+			if v.IsNil() || v.Cap() == 0 {
+				return
+			}
+			k := ptrKey{v.Pointer(), v.Type(), v.Cap()}
+			if seen[k] {
+				return
+			}
+			seen[k] = true
+			n := v.Len()
+			if n > 0 {
+				try(v.Index(0), path+"[0]")
+				if n > 1 {
+					try(v.Index(n-1), path+"[last]")
+				}
+			}
+			if v.Cap() > n {
+				try(v.Slice(0, v.Cap()).Index(n), path+"[len..cap]")
+			}
+			switch v.Type().Elem().Kind() {
+			case reflect.Interface, reflect.Pointer, reflect.Struct, reflect.Array, reflect.Map, reflect.Slice:
+				for i := 0; i < n; i++ {
+					visit(v.Index(i), fmt.Sprintf("%s[%d]", path, i))
+				}
+			}
+		}
+	}
+	visit(reflect.ValueOf(root), "")
+	if deepHash(root) != h0 {
+		missed = append(missed, "(self-test did not restore the graph)")
+	}
+	return
 }
